@@ -340,6 +340,69 @@ func vDecTerm(conf *Conf, key string) (string, vDec) {
 	return "(" + vStr(key) + ", " + sTerm + ", " + iTerm + ", " + lTerm + ", " + mTerm + ")", d
 }
 
+// ---- string / int fields behind a custom confmap.Unmarshaler -----------------------------------------------------
+// The clause "its original text when assigned to a string field" does not depend on WHERE the field lives: a struct
+// that implements confmap.Unmarshaler (nested, or the top-level result) must receive exactly what a plain struct
+// receives.  Metamorphic oracle, independent of the model.
+type vCustomS struct {
+	X string `mapstructure:"x"`
+}
+
+func (c *vCustomS) Unmarshal(conf *Conf) error { return conf.Unmarshal(c, WithIgnoreUnused()) }
+
+type vCustomI struct {
+	X int `mapstructure:"x"`
+}
+
+func (c *vCustomI) Unmarshal(conf *Conf) error { return conf.Unmarshal(c, WithIgnoreUnused()) }
+
+type vPlainS struct {
+	X string `mapstructure:"x"`
+}
+type vPlainI struct {
+	X int `mapstructure:"x"`
+}
+
+var vPendingDiffs []string
+
+func vCustomCheck(conf *Conf, key string) {
+	val := conf.unsanitizedGet(key)
+	flat := NewFromStringMap(map[string]any{"x": val})
+	nested := NewFromStringMap(map[string]any{"c": map[string]any{"x": val}})
+	show := func(v any, err error) string {
+		if err != nil {
+			return "<decode error>"
+		}
+		return fmt.Sprintf("%#v", v)
+	}
+	var ps vPlainS
+	var cs vCustomS
+	var ns struct {
+		C vCustomS `mapstructure:"c"`
+	}
+	wantS := show(func() (any, error) { err := flat.Unmarshal(&ps, WithIgnoreUnused()); return ps.X, err }())
+	if got := show(func() (any, error) { err := flat.Unmarshal(&cs, WithIgnoreUnused()); return cs.X, err }()); got != wantS {
+		vPendingDiffs = append(vPendingDiffs, fmt.Sprintf("key %s: a string field of a top-level struct with a custom Unmarshaler receives %s, of a plain struct %s", key, got, wantS))
+	}
+	if got := show(func() (any, error) { err := nested.Unmarshal(&ns, WithIgnoreUnused()); return ns.C.X, err }()); got != wantS {
+		vPendingDiffs = append(vPendingDiffs, fmt.Sprintf("key %s: a string field of a NESTED struct with a custom Unmarshaler receives %s, of a plain struct %s", key, got, wantS))
+	}
+	var sq struct {
+		vCustomS `mapstructure:",squash"`
+	}
+	if got := show(func() (any, error) { err := flat.Unmarshal(&sq, WithIgnoreUnused()); return sq.X, err }()); got != wantS {
+		vPendingDiffs = append(vPendingDiffs, fmt.Sprintf("key %s: a string field of a SQUASHED embedded struct with a custom Unmarshaler receives %s, of a plain struct %s", key, got, wantS))
+	}
+	var pi vPlainI
+	var ni struct {
+		C vCustomI `mapstructure:"c"`
+	}
+	wantI := show(func() (any, error) { err := flat.Unmarshal(&pi, WithIgnoreUnused()); return pi.X, err }())
+	if got := show(func() (any, error) { err := nested.Unmarshal(&ni, WithIgnoreUnused()); return ni.C.X, err }()); got != wantI {
+		vPendingDiffs = append(vPendingDiffs, fmt.Sprintf("key %s: an int field of a NESTED struct with a custom Unmarshaler receives %s, of a plain struct %s", key, got, wantI))
+	}
+}
+
 type vObs struct {
 	term    string
 	errCode int // -1 = ok
@@ -379,10 +442,12 @@ func vObserveOn(r *Resolver) vObs {
 	dec := make([]string, len(ks))
 	strs := map[string]*string{}
 	decs := map[string]vDec{}
+	vPendingDiffs = nil
 	for i, k := range ks {
 		var d vDec
 		dec[i], d = vDecTerm(res.conf, k)
 		strs[k], decs[k] = d.s, d
+		vCustomCheck(res.conf, k)
 	}
 	return vObs{term: "(WObsOk " + vW(tree) + " " + vW(tsm) + " " + vList(dec) + ")", errCode: -1, tsm: tsm, strs: strs, decs: decs}
 }
@@ -665,14 +730,11 @@ func vWildTable(r *vRand, c *vCfg, st map[string]int) {
 	c.put("env:R1b", vYAML("r${env:B}"))
 	c.put("env:MR", &vEntry{raw: map[string]any{"k": vGenWild(r, c, 1, st), "l": []any{"${env:N}", "z$$"}}})
 	c.put("env:R2", &vEntry{raw: vGenWild(r, c, 2, st)})
-	// cycles: exactly one reference per member (growth is at most linear in the number of rounds)
-	if r.Bool() {
-		c.put("env:CY", &vEntry{raw: "${env:CY}"})
-	} else {
-		c.put("env:CY", &vEntry{raw: "c${env:CY}"})
-	}
+	// cycles of CONSTANT size (the model runs the 10 000 rounds of the work budget on them; growing cycles are
+	// exercised by the Go-only stream "growing cycles" and by the guarded doubling probe)
+	c.put("env:CY", &vEntry{raw: "${env:CY}"})
 	c.put("env:CA", &vEntry{raw: "${env:CB}"})
-	c.put("env:CB", &vEntry{raw: "b${env:CA}"})
+	c.put("env:CB", &vEntry{raw: "${env:CA}"})
 }
 
 func vGenValue(r *vRand, c *vCfg, depth int, st map[string]int, strGen func() string) any {
@@ -905,7 +967,7 @@ func vEq(a, b any) bool {
 	return reflect.DeepEqual(a, b)
 }
 
-// ---- guarded probe of a DOUBLING reference cycle (finding C12-EXPCYCLE) -----------------------------------
+// ---- guarded probe of a DOUBLING reference cycle (regression of finding C12-EXPCYCLE, repaired by 536781a48) -----------------------------------
 // X = "${env:X}${env:X}": every round doubles the string, so the bound of 1000 rounds would be reached only after
 // 2^1000 characters.  The probe runs in a CHILD process (this test binary re-executed) under three guards: a
 // watchdog that exits as soon as the Go runtime holds more than 300 MiB, RLIMIT_AS = 2 GiB, and the parent's
@@ -972,17 +1034,20 @@ func vProbeDoublingCycle(out *vOut, st map[string]int) {
 	st["doubling-cycle-probe"]++
 	if m := regexp.MustCompile(`VERIF-RETURNED rounds=(\d+) toomany=(true|false) err=(true|false)`).FindStringSubmatch(txt); m != nil {
 		st["doubling-cycle-returned"]++
+		if rounds, _ := strconv.Atoi(m[1]); m[2] == "true" && rounds > 64 {
+			out.Oracle("cycle-not-refused-quickly", term, "doubling cycle X=\"${env:X}${env:X}\", k=\"${env:X}\": refused only after "+m[1]+" rounds (the text doubles every round)")
+		}
 		if m[2] != "true" {
 			out.Oracle("cycle-not-reported", term, "doubling cycle X=\"${env:X}${env:X}\", k=\"${env:X}\": Resolve returned after "+m[1]+" rounds without 'too many recursive expansions'")
 		}
 		return
 	}
 	if m := regexp.MustCompile(`VERIF-MEMLIMIT rounds=(\d+) sysMiB=(\d+)`).FindStringSubmatch(txt); m != nil {
-		out.Oracle("cycle-exhausts-memory", term, "doubling cycle X=\"${env:X}${env:X}\", k=\"${env:X}\": stopped by the memory guard after "+m[1]+" rounds of 1000 holding "+m[2]+" MiB (the text doubles every round); no 'too many recursive expansions' is ever reported")
+		out.Oracle("cycle-exhausts-memory", term, "doubling cycle X=\"${env:X}${env:X}\", k=\"${env:X}\": stopped by the memory guard after "+m[1]+" rounds holding "+m[2]+" MiB (the text doubles every round); no 'too many recursive expansions' is ever reported")
 		return
 	}
 	if strings.Contains(txt, "out of memory") || strings.Contains(txt, "cannot allocate memory") {
-		out.Oracle("cycle-exhausts-memory", term, "doubling cycle X=\"${env:X}${env:X}\", k=\"${env:X}\": stopped by the memory guard (RLIMIT_AS) after an unknown number of rounds of 1000; no 'too many recursive expansions' is ever reported")
+		out.Oracle("cycle-exhausts-memory", term, "doubling cycle X=\"${env:X}${env:X}\", k=\"${env:X}\": stopped by the memory guard (RLIMIT_AS) after an unknown number of rounds; no 'too many recursive expansions' is ever reported")
 		return
 	}
 	tail := txt
@@ -1020,6 +1085,10 @@ func TestVerifC12(t *testing.T) {
 	}()
 	seen := map[string]bool{}
 	emit := func(nontrivial bool, term string) {
+		for _, dmsg := range vPendingDiffs {
+			out.Oracle("custom-unmarshaler-differs", term, dmsg)
+		}
+		vPendingDiffs = nil
 		if seen[term] {
 			st["duplicate-case-skipped"]++
 			return
@@ -1103,7 +1172,8 @@ func TestVerifC12(t *testing.T) {
 				}
 			}
 		}
-		// 150 / 999 distinct references in one value resolve, 1000 are refused (one reference per round, 1000 rounds)
+		// 150 / 999 / 1000 distinct references in one value all resolve (regression of finding C12-MANYREFS: the former
+		// bound of 1000 rounds refused the 1000)
 		for _, n := range []int{150, 999, 1000} {
 			if vTier() == "quick" && n == 999 {
 				continue
@@ -1134,6 +1204,34 @@ func TestVerifC12(t *testing.T) {
 
 	// -- guarded probe: a reference cycle that doubles per round (1 case, child process)
 	vProbeDoublingCycle(out, st)
+
+	// -- growing cycles (Go only: no case line, the model would need 10 000 rounds over a growing text): cycles of
+	// length 1-3 whose members carry text around ONE reference; every one must be refused with the cycle error
+	for i, n := 0, vBudget(12, 4); i < n; i++ {
+		r := vNewRand(uint64(8000003 + i))
+		c := vNewCfg([]string{"", "env"}[r.Intn(2)], "env")
+		k := 1 + r.Intn(3)
+		for j := 0; j < k; j++ {
+			next := "env:G" + strconv.Itoa((j+1)%k)
+			c.put("env:G"+strconv.Itoa(j), &vEntry{raw: vGenLit(r, r.Intn(3), false) + "${" + next + "}" + vGenLit(r, r.Intn(3), false)})
+		}
+		c.put("env:A", &vEntry{raw: "va"})
+		val := []string{"${env:G0}", "p${env:G0}q", "${env:A}${env:G0}"}[r.Intn(3)]
+		srcs := []any{map[string]any{"k": val}}
+		c.setSources(srcs)
+		t0 := time.Now()
+		o := vObserve(c, 1)
+		term := vCaseTerm(c, srcs, o)
+		if hung(term, o) {
+			return
+		}
+		st["growing-cycle-checks"]++
+		if o.errCode != 5 {
+			out.Oracle("cycle-not-reported", term, fmt.Sprintf("a reference cycle of length %d with text around the references: class %d instead of 'too many recursive expansions'", k, o.errCode))
+		} else if d := time.Since(t0); d > 60*time.Second {
+			out.Oracle("cycle-not-refused-quickly", term, fmt.Sprintf("a growing reference cycle of length %d was refused only after %v", k, d))
+		}
+	}
 
 	// -- family 1: token strings
 	nTok := vBudget(450, 12)
